@@ -138,7 +138,7 @@ def fails_now(c: dict) -> bool:
 def main() -> None:
     run = Run("C07", "proof")
     run.forbid()
-    run.require_vo(["Script/Model.v"])
+    run.require_vo(["Script/Model.v", "Script/Proofs.v", "Script/Renumber.v"])
     run.props("Props/TablesAgree.v")
     run.props("Props/C07.v")
     q = run.tier == "quick"
